@@ -252,7 +252,6 @@ type runner struct {
 	port    int
 }
 
-
 func (r *runner) waitFor(cond func() bool, ceiling time.Duration) bool {
 	dl := time.Now().Add(ceiling)
 	for {
@@ -286,7 +285,9 @@ func (r *runner) feed(e *executor.Event) bool {
 }
 
 func script(beh string) string {
-	pre := `echo $$ >> "$C17_DIR/pids"; n=$(wc -l < "$C17_DIR/pids"); `
+	// the index is taken BEFORE the child announces itself: the harness starts the next child only after the
+	// announcement, so no two children can compute the same index
+	pre := `n=$(( $(cat "$C17_DIR/pids" 2>/dev/null | wc -l) + 1 )); echo $$ >> "$C17_DIR/pids"; `
 	wait := `while [ ! -e "$C17_DIR/go.$n" ]; do sleep 0.02; done; `
 	switch beh {
 	case "ok", "noport":
@@ -360,8 +361,15 @@ func groupAlive(pgids []int) bool {
 		return false
 	}
 	want := map[int]bool{}
+	any := false
 	for _, p := range pgids {
 		want[p] = true
+		if err := syscall.Kill(-p, syscall.Signal(0)); err != syscall.ESRCH {
+			any = true
+		}
+	}
+	if !any {
+		return false // no such groups at all; otherwise look closer (zombies do not count)
 	}
 	ents, _ := os.ReadDir("/proc")
 	for _, e := range ents {
@@ -544,6 +552,10 @@ func runnerMain(input, dir string) {
 			if len(r.pidLines()) >= 1 {
 				r.started = 1
 				r.curMark = a.mark()
+			} else {
+				// the launch failed before a child existed; what the Launch goroutine does after reporting that
+				// (as the code stands: it panics) is asynchronous — give it a moment to land inside this step
+				time.Sleep(time.Second)
 			}
 		}
 		a.say("RES 0 ok")
@@ -659,7 +671,7 @@ func runnerMain(input, dir string) {
 	// survivors: give signals a moment to land, then look
 	pg := r.pidLines()
 	alive := groupAlive(pg)
-	for k := 0; k < 15 && alive; k++ {
+	for k := 0; k < 25 && alive; k++ {
 		time.Sleep(20 * time.Millisecond)
 		alive = groupAlive(pg)
 	}
